@@ -228,6 +228,38 @@ def main(argv=None):
         vio_out.append('VIOLATION property=%s replay=%s unit=%s fn=%s clause=%s%s' % (
             prop, rp, r.unit.name, f.function, (f.labels or ['auto'])[0], tail))
 
+    # bounded stand-ins for the driver functions out of the verifier's reach (labelled bounded, never counted as proved)
+    bnd = []
+    from . import bounded
+    if prop in bounded.MODES:
+        repo = os.environ.get('VERIF_REPO', '/repo')
+        exe, why = bounded.build(repo)
+        if exe is None:
+            undecided.append('bounded stand-in not run: %s' % why)
+        else:
+            try:
+                bnd = bounded.run(prop, tier, exe)
+            finally:
+                try:
+                    os.remove(exe)
+                except OSError:
+                    pass
+            for rec in bnd:
+                if rec.get('error'):
+                    undecided.append('bounded stand-in %s: %s' % (rec['mode'], rec['error']))
+                for n, hit in enumerate(rec['found']):
+                    known = [k for k in my_kf if hit.get('input') in k.get('bounded_inputs', [])]
+                    if known:
+                        line = 'KNOWN-FINDING: property=%s %s — %s [input: %s]' % (prop, known[0].get('id', ''), known[0].get('what', ''), hit.get('input'))
+                        kf_lines.append(line)
+                        print(line)
+                        continue
+                    rp = os.path.join(EVID, 'replay', '%s-bounded-%s-%d.json' % (prop, rec['mode'], n))
+                    with open(rp, 'w') as fh:
+                        json.dump({'property': prop, 'kind': 'bounded stand-in: concrete failing input on the real crate', 'mode': rec['mode'],
+                                   'stands_in_for': rec['stands_in_for'], 'failing_input': hit, 'reproduce': rec.get('reproduce')}, fh, indent=1)
+                    vio_out.append('VIOLATION property=%s replay=%s bounded=%s input=%s' % (prop, rp, rec['mode'], json.dumps(hit.get('input', ''))[:300]))
+
     meta = PROPS.get(prop, {})
     assumptions = list(meta.get('unverified', [])) + [
         'A1 Verus 0.2026.09.13 (VIR/AIR translation, bundled Z3) and rustc 1.98.1 front end are trusted',
@@ -248,7 +280,10 @@ def main(argv=None):
             'units': unit_reports,
             'solver_time_ms': sum(r.smt_ms for r in main_res),
             'stability_runs': len(seed_res),
-            'bounded': [],
+            'bounded': [{k: v for k, v in rec.items() if k != 'found'} | {'found': rec['found'][:5]} for rec in bnd],
+            'evaluations': sum((rec.get('cases') or 0) for rec in bnd),
+            'distinct_nontrivial': sum((rec.get('distinct') or 0) for rec in bnd),
+            'rule': ('bounded stand-ins only (not part of the proof): ' + ' ; '.join('%s: %s' % (rec['mode'], rec.get('bound')) for rec in bnd)) if bnd else 'no bounded stand-in for this property',
             'explanation': 'obligations = function-level SMT queries issued by Verus for the units carrying clauses of this property '
                            '(each query discharges every requires/ensures/invariant/decreases/overflow/index/unwrap obligation of one function); '
                            'clauses_tagged_for_property counts the inserted contract lines that state this property.',
@@ -269,8 +304,9 @@ def main(argv=None):
         for u in undecided:
             print('UNDECIDED property=%s %s' % (prop, u))
         return 2
-    print('OK property=%s units=%s queries=%d/%d clauses=%d vacuity-probes=%d wall=%.1fs' % (
-        prop, ','.join(u.name for u in units), discharged, obligations, tagged_clauses, vac_probes, time.time() - t0))
+    print('OK property=%s units=%s queries=%d/%d clauses=%d vacuity-probes=%d%s wall=%.1fs' % (
+        prop, ','.join(u.name for u in units), discharged, obligations, tagged_clauses, vac_probes,
+        (' bounded=%s(%d cases)' % ('+'.join(r['mode'] for r in bnd), sum((r.get('cases') or 0) for r in bnd))) if bnd else '', time.time() - t0))
     return 0
 
 
